@@ -434,7 +434,7 @@ func mainSearch(t *testing.T, prop string, sc Scenario, tier string) {
 		} else {
 			tfps[fp] = true
 		}
-		if len(res.Samples) < 3 && (r.nontriv || k == to-1) && o.class == "" {
+		if len(res.Samples) < 3 && (r.nontriv || len(res.Samples) == 0) {
 			lg := r.logCopy()
 			if len(lg) > 40 {
 				lg = append(lg[:40], "...")
